@@ -33,7 +33,7 @@ K = 4
 
 def plan(tier, seed):
     n = 8
-    shards = [{"kind": "histories", "count": 30 if tier == "quick" else 300, "length": 25 if tier == "quick" else 80,
+    shards = [{"kind": "histories", "count": 30 if tier == "quick" else 1500, "length": 25 if tier == "quick" else 80,
                "cs": seed * 100 + i} for i in range(n)]
     shards.append({"kind": "waits", "rounds": 8 if tier == "quick" else 60, "cs": seed})
     return shards
